@@ -158,6 +158,12 @@ Definition MANUALSORT : name := [109; 97; 110; 117; 97; 108; 83; 111; 114; 116].
 Definition protected_col (d : doc) (T a : name) : bool :=
   name_eqb a MANUALSORT || (name_eqb a GROUP && match summary_source d T with Some _ => true | None => false end).
 
+(* no alternative text in the reference columns that point to table a *)
+Definition no_alt_textb (d : doc) (a : name) : bool :=
+  forallb (fun tb => forallb (fun co => negb (targets (ctype co) a)
+                                        || forallb (fun p => match snd p with VStr _ => false | _ => true end) (cdata co))
+                             (tcols tb)) d.
+
 Fixpoint val_plainb (v : val) : bool :=
   match v with
   | VRec _ _ => false
